@@ -19,10 +19,11 @@ open Gql Gql.Json Gql.Errors Gql.Gen Gql.ErrTemplates
 
 /- ======================= paths ======================= -/
 
-/-- Any error path whose indices are integers of magnitude ≤ 2^53 (and whose names are well-formed
-    UTF-8) encodes to JSON and decodes back to the same path. -/
+/-- Any error path whose indices are Go `int`s (int64; `PathIndex` is an `int`, the model's integers
+    are unbounded) and whose names are well-formed UTF-8 encodes to JSON and decodes back to the
+    same path. -/
 theorem C20_path_roundtrip (p : Path)
-    (hidx : ∀ i, PathElem.index i ∈ p → i.natAbs ≤ 2 ^ 53)
+    (hidx : ∀ i, PathElem.index i ∈ p → -(2 ^ 63 : Int) ≤ i ∧ i < (2 ^ 63 : Int))
     (hname : ∀ n, PathElem.name n ∈ p → sanitize n = n) :
     decPath (encPath p) = .ok p := by
   have h : ∀ e ∈ p, ElemInDomain e := by
@@ -32,21 +33,25 @@ theorem C20_path_roundtrip (p : Path)
     | index i => exact hidx i he
   simp [decPath, encPath, toList_ofList, decElems_enc p h]
 
-/-- R20b: beyond 2^53 the index goes through a float64 and comes back different:
-    `Path{"a", 2^53+1}` decodes as `a[2^53]`. -/
-theorem C20_path_roundtrip_counterexample :
-    decPath (encPath [.name (str "a"), .index (2 ^ 53 + 1)]) = .ok [.name (str "a"), .index (2 ^ 53)] ∧
-    ([PathElem.name (str "a"), .index (2 ^ 53)] : Path) ≠ [.name (str "a"), .index (2 ^ 53 + 1)] := by
-  constructor
-  · have h1 : sanitize (str "a") = str "a" := by decide
-    have h2 : indexOfNumber 9007199254740993 = 9007199254740992 := by decide
-    simp [decPath, encPath, JList.ofList, JList.toList, encElem, decElems, decElem, h1, h2, bind, Except.bind,
-      pure, Except.pure]
-  · decide
+/-- in particular the former failing paths (R20b, repaired: "path indices are read back exactly"):
+    an index beyond 2^53 and the largest int64 come back unchanged -/
+theorem C20_path_roundtrip_big_indices :
+    decPath (encPath [.name (str "a"), .index (2 ^ 53 + 1), .index (2 ^ 63 - 1), .index (-(2 ^ 63))])
+      = .ok [.name (str "a"), .index (2 ^ 53 + 1), .index (2 ^ 63 - 1), .index (-(2 ^ 63))] := by
+  apply C20_path_roundtrip
+  · intro i hi
+    simp at hi
+    rcases hi with h | h | h <;> subst h <;> decide
+  · intro n hn
+    simp at hn
+    subst hn
+    decide
 
-/-- the largest int64 does not even stay positive (amd64 `int(float64)` of 2^63) -/
-theorem C20_path_roundtrip_maxint_counterexample :
-    indexOfNumber (2 ^ 63 - 1) = -(2 ^ 63) := by decide
+/-- history (before the repair every index went through a float64): beyond 2^53 it came back
+    different, and the largest int64 did not even stay positive (amd64 `int(float64)` of 2^63) -/
+theorem C20_path_roundtrip_through_float_counterexample :
+    indexThroughFloat 9007199254740993 = 9007199254740992 ∧ indexThroughFloat (2 ^ 63 - 1) = -(2 ^ 63) := by
+  constructor <;> decide
 
 /-- `Path.String()` of `variable.a[0].b` -/
 example : Path.render [.name (str "variable"), .name (str "a"), .index 0, .name (str "b")] = str "variable.a[0].b" := by
@@ -98,10 +103,10 @@ theorem C20_file_carried_setFile (e : Error) (file : Bytes) (h : file ≠ []) :
     extGet kFile (e.setFile file).extensions = some (.str file) := by
   simp [Error.setFile, h, extGet_extSet]
 
-/-- R20a on the model: the token-limit error is built with `fmt.Errorf`, i.e. as a plain error;
-    wrapped the way `gqlparser.LoadQuery` wraps it (`gqlerror.Wrap`) it has no location and no
-    file, and prints as coming from "input". -/
-theorem C20_limit_error_without_file_counterexample :
+/-- history (R20a, repaired: "the token limit error carries the file name of its source"): an error built
+    with `fmt.Errorf`, as the token-limit error was, and wrapped the way `gqlparser.LoadQuery` wraps it
+    (`gqlerror.Wrap`) has no location and no file, and prints as coming from "input". -/
+theorem C20_plain_error_without_file_counterexample :
     let e : Error := { message := str "exceeded token limit of 2" }
     e.locations = [] ∧ extGet kFile e.extensions = none ∧
       e.render = str "input: exceeded token limit of 2" := by
